@@ -20,6 +20,10 @@ IdxSet(n) == {0, n, n + 1, UMAX} \cup (IF n > 0 THEN {n - 1} ELSE {})
 Requests ==
      {Req(ep, dim, i, 0, 0, 0) : ep \in {"VecIdx", "VecIdxC"}, dim \in 0..3, i \in 0..4} \cup
      {Req(ep, dim, UMAX, 0, 0, 0) : ep \in {"VecIdx", "VecIdxC"}, dim \in 0..3}
+\* an object whose size was changed by an earlier call (history): how = 0 assignment, 1 Resize, 2 Assign(dim, entry); old size m, new size n, then index i
+\cup {Req("VecIdxAfter", how, m, n, i, 0) : how \in 0..2, m \in 1..4, n \in 1..4, i \in 0..5}
+\* matrix rows: how = 0 assignment, 1 Resize, 2 Assign, 3 Delete_Row (new = old - 1)
+\cup {Req("MatIdxAfter", how, m, n, i, 0) : how \in 0..3, m \in 1..3, n \in 1..3, i \in 0..4}
 \cup {Req("VecBin", op, m, n, 0, 0) : op \in 0..5, m \in 1..4, n \in 1..4}
 \cup {Req("Cross", m, n, 0, 0, 0) : m \in 2..4, n \in 2..4}
 \cup {Req(ep, rows, i, 0, 0, 0) : ep \in {"MatIdx", "MatIdxC"}, rows \in 0..3, i \in 0..4}
@@ -69,6 +73,8 @@ Requests ==
 
 Meaningful(r) ==
   CASE r.ep \in {"VecIdx", "VecIdxC", "MatIdx", "MatIdxC"} -> r.b < r.a          \* index inside the object
+    [] r.ep = "VecIdxAfter" -> r.d < r.c                                           \* index inside the object as it is NOW
+    [] r.ep = "MatIdxAfter" -> r.d < (IF r.a = 3 THEN r.b - 1 ELSE r.c) /\ (r.a = 3 => r.b >= 2)
     [] r.ep = "VecBin"   -> r.b = r.c                                              \* equal dimensions (Dot,*,+,-,+=,-=)
     [] r.ep = "Cross"    -> r.a = 3 /\ r.b = 3
     [] r.ep = "MatBin"   -> r.b = r.d /\ r.c = r.e                                 \* equal shapes
